@@ -3,6 +3,7 @@ from .. import sym as S
 from .. import util as U
 from ..effects import NON_CONTENT
 from ..engine import where
+from . import r_bridge as RB
 from .common import info
 
 REG_OPS = {"insert": "insert", "remove": "remove", "entry": "insert", "clear": "remove", "retain": "remove",
@@ -319,10 +320,11 @@ def run(ctx):
     buffer_rules(ctx, "R20.c", "R20.d", "R20.f")
     forwarders(ctx, "R20.g")
     create_sets_lang(ctx, "R20.g")
+    RB.forwarders(ctx, "R20.e")
     return info("R20.a: every entry point that inserts into / removes from one thread-local registry does the same to the other "
                 "under its own id parameter, inserts replace rather than keep entries; R20.b: the registry accessors look up their "
                 "own id parameter and every API function addresses all registries with its own first parameter (cross-body "
                 "provenance through closure captures); R20.c: the result buffer is cleared before the refill; R20.d: no entry "
                 "point other than the search runner changes buffer contents; R20.f: the buffer of id X receives the hits of "
                 "store X for the query parameter tokenised in store X's language; R20.g: add_record / set_limit / "
-                "highlight_with / create_store forward their parameters positionally to the addressed store.")
+                "highlight_with / create_store forward their parameters positionally to the addressed store; R20.e: for each of the seven `lang` cfgs the WASM exports call the like-named core function with their parameters in order, get_lang builds the cfg's language, get_result_ids reads the addressed buffer.")
